@@ -4,7 +4,8 @@
 
     (A) Checkers over the event trace of Model/TlsSwitch.v, used by the theorems:
         [ttrace_run]  the phase/transaction checker of Spec/SessionSpec.v, with the
-                      abstract state RESET to "nothing yet" at every [TSwitch]:
+                      abstract state RESET to "nothing yet" at every [TSwitch]
+                      (except the flag "authenticated", which the code keeps):
                       a trace passes only if, after the handshake, MAIL FROM is
                       preceded by a new HELO/EHLO and every hand-off carries a
                       transaction that was opened after the handshake;
@@ -22,11 +23,16 @@ From Qv Require Import Common.Bytes Gen.GenSession Model.NetRead Model.Session S
 Section WithOracles.
 Variable o : oracles.
 
+(** what the code keeps of the abstract state at the switch: nothing of the greeting or a transaction; but an
+    authentication obtained earlier on the connection stays valid (xmitstat.authname is not touched by tls_init) *)
+(* the ESMTP flag is not touched either; it is of no use until a new EHLO: the command state is the initial one *)
+Definition a_reset (a : astate) : astate := {| a_phase := PInit; a_txn := None; a_stored := 0; a_auth := a_auth a; a_esmtp := a_esmtp a |}.
+
 Fixpoint ttrace_run (evs : list tevent) (a : astate) : option astate :=
   match evs with
   | [] => Some a
   | TE _ e :: r => match trace_step o e a with Some a' => ttrace_run r a' | None => None end
-  | TSwitch :: r => ttrace_run r a_init          (* whatever was learned in clear text is gone *)
+  | TSwitch :: r => ttrace_run r (a_reset a)     (* greeting, sender, recipients learned in clear text are gone *)
   | _ :: r => ttrace_run r a
   end.
 
